@@ -42,6 +42,10 @@ CHECKS = {
    text="match_spec (Coq) specifies the streaming Match: one callback per outermost location some target selects (Locate denotation of C11), in document order, with the value at that location. Proved: every reported location is selected, none lies below another selected location, and each (path, value) is a location of the document. oj.Match, oj.MatchString, oj.MatchLoad (one piece, 1-byte reads, a random split) and sen.Match are compared, callback sequence by callback sequence, with the extracted match_spec on seeded documents x 1-2 seeded targets (child, index, wildcard, union, descent, trailing filter). Three genuine limitations of the streaming handler are recorded known findings (slice/negative-index targets; a filter target shadowing another target; a descent in front of a trailing filter), each attributed per case.",
    technique="Coq specification of outermost-match with proved laws + callback-sequence correspondence under all chunkings",
    design='6/C17'),
+ 'C07': dict(
+   text="Proved in Coq (Reuse/Discipline.v) for any instance type whose fields are classified as reset (stored by the prologue of every entry point), configuration (never written by the body) or scratch (written by the body before it is read): after ANY history of calls, successful or not, the next call returns what a fresh instance with the same configuration returns (reuse_eq_fresh, history_eq_fresh). The classification of oj.Parser, oj.Validator, oj.Tokenizer, gen.Parser, sen.Parser, sen.Tokenizer, oj.Writer and sen.Writer is checked on every run against the struct definitions and the assignments of every entry method REGENERATED from /repo (C07_fields_covered: no unclassified field, every reset field assigned by every entry point). The write-before-read assumption on the bodies and the pooled package-level functions are decided by the history suite: 2-8 calls per history on one instance or through the pools, each call compared with a fresh instance, inputs that stop in every scratch state, failing readers and writers, panicking callbacks, option changes between calls; values returned earlier are re-inspected after every later call with the caller's buffers overwritten.",
+   technique="Coq proof of history-independence under a field discipline + translator-regenerated field/assignment lists discharged by computation + call-history correspondence against fresh instances",
+   design='6/C07'),
  'C18': dict(
    text="Proved in Coq for all typed simple trees (ten Go integer kinds, uint64 wrap made explicit) and both OmitNil settings: Simplify after Generify equals Decompose; on JSON-like data with nulls kept Decompose/Dup/Alter is the identity, hence the Generify/Simplify trip is the identity; Generify after Simplify gives the generic tree back; the writers see the same tree in a generic value and in its Simplify; Generify never leaves the int64 range. Deep copy is proved on a model of containers with identity (Alt/Store.v): a copy allocates a fresh identity for every container, denotes the same value, and an in-place mutation of any container of either tree leaves the other unchanged. Tied to the code on every run: alt.Generify/GenAlter/Decompose/Dup/Alter, Node.Simplify/Alter against the extracted functions on typed trees x OmitNil; writer text of gen tree vs Simplify for oj/sen/pretty; gen.Parser vs Generify(oj.Parser); the storage identities of every container of original and copy are observed (reflect pointers) and three in-place mutations are applied to every container of the copy and of the original for five copying operations.",
    technique="Coq proofs of the conversion laws and of copy independence on a store model + correspondence of the kind switches and observed container identities / mutate-after-copy experiments",
